@@ -326,6 +326,7 @@ class Check:
             unlisted.sort(key=lambda f: len(json.dumps(f)))
             replay_path = self.write_replay({"property": self.prop, "kind": "failing-input", "failure": unlisted[0],
                                              "other_failures": len(unlisted) - 1,
+                                             "all_unlisted_signatures": sorted({f["signature"] for f in unlisted}),
                                              "broken_obligations": self.broken,
                                              "replay": replay_cmd_hint or "./check %s --replay <this file>" % self.prop})
             print("VIOLATION property=%s replay=%s" % (self.prop, replay_path), flush=True)
